@@ -8,7 +8,9 @@ package gts
 //
 // Bound: coordinates {0,3,6,9} on a sequence of length 9; locations = every range over those
 // coordinates with every partial-marker combination, the complement of each, a point, a
-// between-site, two joins and an order; classes = (gene,a) (gene,b) (source,x) (gene,a+/pseudo); all tables of
+// between-site, two joins and an order; classes = (gene,a) (gene,b) (source,x) (gene,a+/pseudo), plus seven pairs of classes that differ
+// only in how their qualifiers are spelled (a value that reads like a second qualifier, a trailing
+// blank, letter case, one value against two, order), as abutting partial fragments; all tables of
 // 1 and 2 features, and tables of 3 features either sampled (quick) or all (thorough).
 
 import (
@@ -66,7 +68,9 @@ func vbCov(l Location, into map[int]bool) {
 	}
 }
 
-func vbClass(f Feature) string { return fmt.Sprintf("%s:%v", f.Key, f.Props) }
+// vbClass: the (key, qualifiers) class of a feature, spelled out element by element (independent of
+// how Props happens to print).
+func vbClass(f Feature) string { return fmt.Sprintf("%s:%q", f.Key, [][]string(f.Props)) }
 
 func vbHasJoin(l Location) bool {
 	switch v := l.(type) {
@@ -383,6 +387,27 @@ func TestVerifBoundedRepair(t *testing.T) {
 		for k := 0; k < 60000; k++ {
 			vbCheck([]Feature{feats[rng.Intn(len(feats))], feats[rng.Intn(len(feats))], feats[rng.Intn(len(feats))]})
 			tables++
+		}
+	}
+	// classes that differ only in how their qualifiers are spelled: two abutting fragments with a
+	// 3'-partial end meeting a 5'-partial start, one of each class, must stay apart
+	pairs := [][2]Props{
+		{{{"note", "similar to /gene=recA"}}, {{"note", "similar to"}, {"gene", "recA"}}},
+		{{{"note", "x"}}, {{"note", "x "}}},
+		{{{"note", "x"}}, {{"Note", "x"}}},
+		{{{"note", "x;y"}}, {{"note", "x"}, {"note", "y"}}},
+		{{{"note", "x] [gene y"}}, {{"note", "x"}, {"gene", "y"}}},
+		{{{"gene", "a"}}, {{"gene", "a"}, {"note", ""}}},
+		{{{"gene", "a"}, {"note", "b"}}, {{"note", "b"}, {"gene", "a"}}},
+	}
+	for _, pq := range pairs {
+		for _, key := range []string{"gene", "misc_feature"} {
+			a := Feature{key, PartialRange(2, 5, Partial3), pq[0]}
+			b := Feature{key, PartialRange(5, 9, Partial5), pq[1]}
+			vbCheck([]Feature{a, b})
+			vbCheck([]Feature{Feature{key, PartialRange(2, 5, Partial3), pq[1]}, Feature{key, PartialRange(5, 9, Partial5), pq[0]}})
+			vbCheck([]Feature{{"source", Range(0, 9), Props{{"organism", "x"}}}, a, b})
+			tables += 3
 		}
 	}
 	trips := vbRoundTrip()
